@@ -135,9 +135,27 @@ CHECKS['C20'] = dict(
          'the real ancestor\'s value; hierarchical pair = (e_t + e_tx/2, e_x + e_tx/2); Prolongate = ancestor value.',
     design_ref='3.17', technique='symbolic execution of the estimators on uninterpreted matrix entries; identities on canonical forms',
     note='<= 5 coarse elements; pool path outside; psi^T S psi > 0 assumed (C13).')
+CHECKS['C14'] = dict(
+    category='other',
+    text='Real Slobodeckij class on rules as exact rationals: (I) translation invariance, quadratic scaling, vanishing on '
+         'constants, homogeneity in the interval length, flat = curve-aware on the four axis directions as polynomial '
+         'identities with a symbolic interval [a, a+r^2] and symbolic polynomial coefficients (orders 1,3 quick; up to 7 '
+         'thorough); two collinear pieces of different length = union interval; (N) all weights positive; (E) for every '
+         'order 1..23 and all i <= j <= (N-1)/2 the value on x^i + x^j over [0,1] equals the rational closed form within '
+         '1e-12 (ground facts decided by z3). The corner case against a graded reference is NOT decided.',
+    design_ref='3.9', technique='symbolic execution of src/norms.py on exact-rational rules; polynomial identities on canonical forms, ground rational queries',
+    note='Closed forms of the Gram entries derived in the harness; invariances decided for the listed orders only.')
+CHECKS['C15'] = dict(
+    category='other',
+    text='Every scheme class executed on exactly-exact rational base rules (2-point midpoint, Simpson, Boole) and symbolic '
+         'target boxes (side lengths in [1e-4,1e3]): all monomials up to the advertised degree (tensor: N per variable; '
+         '2-D Duffy: N-1; 3-D Duffy: N-2; all mirrors; symmetric variants on symmetric integrands) are polynomial '
+         'identities in the box coordinates, the next degree must fail (vacuity twin), weights sum to the measure, double '
+         'mirror = identity, all derived schemes share one base object that is re-checked; tabulated rules on the unit box '
+         'as ground rational facts. Monotone convergence on log integrands NOT decided.',
+    design_ref='3.8', technique='symbolic execution of src/quadrature.py on exact rational rules + symbolic boxes; identities on canonical forms; z3 for guards',
+    note='Exactness of the tabulated base rules themselves is C05; np.isclose/allclose modelled if reached.')
 NA['C13'] = ('an eigenvalue bound on a matrix whose entries are quadratures of Ei/exp: no fragment of it is a '
              'statement an SMT solver can decide about the real code (DESIGN 3.20)')
 NA['C08'] = 'check not built yet (work in progress; see DESIGN.md for the plan)'
 NA['C09'] = 'check not built yet (work in progress; see DESIGN.md for the plan)'
-NA['C14'] = 'check not built yet (work in progress; see DESIGN.md for the plan)'
-NA['C15'] = 'check not built yet (work in progress; see DESIGN.md for the plan)'
